@@ -173,6 +173,86 @@ class _Suspension:
         self._switch("resume")
 
 
+class _NestedScopeReads(NodeVisitor):
+    """Collect the names that a nested function or lambda reads from outside.
+
+    The parameters and the variables assigned in a nested scope belong to that
+    scope, not to the function that contains it.
+
+    Attributes:
+        reads: Set of names used in the scope that it does not define.
+    """
+
+    def __init__(self, node):
+        self.loads = set()
+        self.local = set()
+        self.declared = set()
+        body = node.body if isinstance(node.body, list) else [node.body]
+        self.visit(node.args)
+        for stmt in body:
+            self.visit(stmt)
+        self.reads = self.loads - (self.local - self.declared)
+
+    def _nested(self, node):
+        args = node.args
+        for expr in [*args.defaults, *args.kw_defaults]:
+            if expr is not None:
+                self.visit(expr)
+        for expr in getattr(node, "decorator_list", []):
+            self.visit(expr)
+        self.loads |= _NestedScopeReads(node).reads
+
+    def visit_FunctionDef(self, node):
+        self.local.add(node.name)
+        self._nested(node)
+
+    visit_AsyncFunctionDef = visit_FunctionDef
+
+    def visit_Lambda(self, node):
+        self._nested(node)
+
+    def visit_ClassDef(self, node):
+        self.local.add(node.name)
+        self.generic_visit(node)
+
+    def visit_Name(self, node):
+        if isinstance(node.ctx, ast.Load):
+            self.loads.add(node.id)
+        else:
+            self.local.add(node.id)
+
+    def visit_arg(self, node):
+        self.local.add(node.arg)
+
+    def visit_Global(self, node):
+        self.declared.update(node.names)
+
+    visit_Nonlocal = visit_Global
+
+    def visit_ExceptHandler(self, node):
+        if node.name is not None:
+            self.local.add(node.name)
+        self.generic_visit(node)
+
+    def visit_Import(self, node):
+        for alias in node.names:
+            self.local.add((alias.asname or alias.name).split(".")[0])
+
+    visit_ImportFrom = visit_Import
+
+    def visit_MatchAs(self, node):
+        if node.name is not None:
+            self.local.add(node.name)
+        self.generic_visit(node)
+
+    visit_MatchStar = visit_MatchAs
+
+    def visit_MatchMapping(self, node):
+        if node.rest is not None:
+            self.local.add(node.rest)
+        self.generic_visit(node)
+
+
 class ExternalVariableCollector(NodeVisitor):
     """Collect variables referred to but not defined in the given AST.
 
@@ -206,8 +286,28 @@ class ExternalVariableCollector(NodeVisitor):
             # in its body, which sets a variable of that name
             self.provenance.setdefault(node.name, "body")
             self.assigned.add(node.name)
-        self.funcnames.add(node.name)
-        self.generic_visit(node)
+            self.funcnames.add(node.name)
+            self._visit_nested_scope(node)
+        else:
+            self.funcnames.add(node.name)
+            self.generic_visit(node)
+
+    visit_AsyncFunctionDef = visit_FunctionDef
+
+    def visit_Lambda(self, node):
+        self._visit_nested_scope(node)
+
+    def _visit_nested_scope(self, node):
+        # The default values and decorators are evaluated by this function.
+        # The parameters and local variables of the nested function are not
+        # variables of this one, but what it reads from outside may be.
+        args = node.args
+        for expr in [*args.defaults, *args.kw_defaults]:
+            if expr is not None:
+                self.visit(expr)
+        for expr in getattr(node, "decorator_list", []):
+            self.visit(expr)
+        self.used |= _NestedScopeReads(node).reads
 
     def visit_ClassDef(self, node):
         self.provenance[node.name] = "body"
@@ -839,6 +939,14 @@ class PteraTransformer(NodeTransformer):
             guard=node.guard and self.visit(node.guard),
             body=new_body,
         )
+
+    def visit_Lambda(self, node):
+        # A lambda is a scope of its own: the variables it assigns and the
+        # values it yields are not those of this function
+        return node
+
+    def visit_AsyncFunctionDef(self, node):
+        return node
 
     def visit_NamedExpr(self, node):
         """Rewrite an assignment expression.
